@@ -854,6 +854,11 @@ class FnVerifier:
                 base = self.spec_in_env(R, ast.unparse(node.value), env)
                 if base.t.kind == "obj":
                     cur = R.cell(base).content.get(node.attr)
+                    dft = base.t.fields.get(node.attr)
+                    if dft is not None and dft is not T.Const and dft.kind == "nullable":
+                        R.write_check(base.z)
+                        R.cell(base).content[node.attr] = self.symbolic_value(R, dft, fresh_name("m." + node.attr))
+                        continue
                     if cur is not None and not cur.t.heap and not cur.is_const:
                         R.write_check(base.z)
                         R.cell(base).content[node.attr] = fresh(cur.t, node.attr)
